@@ -41,6 +41,7 @@ type c13state struct {
 	pos      int    // consumed
 	wireRead int    // bytes the conn took from the socket
 	peeks    []peeked
+	copies   [][]byte // results of ReadBinary, overwritten with '#' by the caller: they are the caller's for good
 	// writer
 	pending []byte // written, not yet flushed (model)
 	flushed []byte // must have been received by the peer
@@ -343,6 +344,12 @@ func (st *c13state) readOp(tp *core.Tape, big bool, readTimeout time.Duration) {
 			for i := range p {
 				p[i] = '#'
 			}
+			if len(p) > 0 {
+				st.copies = append(st.copies, p)
+				if len(st.copies) > 6 {
+					st.copies = st.copies[1:]
+				}
+			}
 		} else if cls := errClass(err); cls == "timeout" {
 			ep.Fault("read-timeout")
 			conn.SetReadTimeout(0)
@@ -407,6 +414,14 @@ func (st *c13state) readOp(tp *core.Tape, big bool, readTimeout time.Duration) {
 	}
 	st.checkLen(fmt.Sprintf("op #%d", st.ops))
 	st.checkPeeks(fmt.Sprintf("op #%d", st.ops))
+	for _, c := range st.copies {
+		for i := range c {
+			if c[i] != '#' {
+				ep.Fail("C13.bytes", "a %dB slice returned by an earlier ReadBinary (a copy owned by the caller) was written to by op #%d (first difference at %d)", len(c), st.ops, i)
+				return
+			}
+		}
+	}
 }
 
 type piecesReader struct {
